@@ -160,6 +160,58 @@ STR_METHODS = {"startswith", "endswith", "rstrip", "lstrip", "strip", "count", "
                "expandtabs"}
 
 
+import collections as _collections
+
+_CONTAINERS = (list, dict, set, bytearray, _collections.deque, tuple, frozenset)
+CONTAINER_METHODS = {"append", "extend", "insert", "pop", "get", "items", "keys", "values", "update", "add", "setdefault", "copy", "index", "count",
+                     "popleft", "appendleft", "clear", "remove", "discard", "union", "intersection", "difference", "issubset", "issuperset"}
+
+
+def _eval_any(node, env, funcs):
+    try:
+        return const_eval(node, env)
+    except NotConst:
+        return const_eval(_fold(node, env, funcs), env)
+
+
+def _bind_target(t, v, env):
+    if isinstance(t, ast.Name):
+        env[t.id] = v
+    elif isinstance(t, (ast.Tuple, ast.List)):
+        vs = list(v)
+        if len(vs) != len(t.elts):
+            raise ModelRaised("ValueError", "unpack")
+        for a, b in zip(t.elts, vs):
+            _bind_target(a, b, env)
+    else:
+        raise NotConst("comprehension target")
+
+
+def _comprehension(node, env, funcs):
+    out = []
+
+    def rec(i, e):
+        if i == len(node.generators):
+            if isinstance(node, ast.DictComp):
+                out.append((_eval_any(node.key, e, funcs), _eval_any(node.value, e, funcs)))
+            else:
+                out.append(_eval_any(node.elt, e, funcs))
+            return
+        gen = node.generators[i]
+        for item in list(_eval_any(gen.iter, e, funcs)):
+            e2 = dict(e)
+            _bind_target(gen.target, item, e2)
+            if all(_eval_any(c, e2, funcs) for c in gen.ifs):
+                rec(i + 1, e2)
+
+    rec(0, dict(env))
+    if isinstance(node, ast.DictComp):
+        return dict(out)
+    if isinstance(node, ast.SetComp):
+        return set(out)
+    return out
+
+
 def _fold(node, env, funcs):
     """Copy of ``node`` in which calls of pure str/bytes methods (STR_METHODS) and of the named pure
     functions in ``funcs`` whose receiver/arguments are evaluable are replaced by their value."""
@@ -167,6 +219,11 @@ def _fold(node, env, funcs):
         return [_fold(x, env, funcs) for x in node]
     if not isinstance(node, ast.AST):
         return node
+    if isinstance(node, (ast.ListComp, ast.SetComp, ast.GeneratorExp, ast.DictComp)):
+        try:
+            return ast.Constant(value=_comprehension(node, env, funcs))
+        except NotConst:
+            pass
     new = node.__class__()
     for f in node._fields:
         if hasattr(node, f):
@@ -190,6 +247,10 @@ def _fold(node, env, funcs):
                 except NotConst:
                     recv = None
                 if isinstance(recv, (str, bytes)) and new.func.attr in STR_METHODS:
+                    args = [const_eval(a, env) for a in new.args]
+                    return ast.Constant(value=getattr(recv, new.func.attr)(*args))
+                if isinstance(recv, _CONTAINERS) and new.func.attr in CONTAINER_METHODS:
+                    # a container created by the interpreted function itself (never a repository object)
                     args = [const_eval(a, env) for a in new.args]
                     return ast.Constant(value=getattr(recv, new.func.attr)(*args))
                 if getattr(recv, "_sa_model", False) and not new.func.attr.startswith("_"):
@@ -384,7 +445,8 @@ def _exc_matches(raised: str, handler: ast.ExceptHandler) -> bool:
     return bool(anc & set(names))
 
 
-def interpret(func, args: Dict[str, object], mapping: Optional[Dict[str, object]] = None, max_steps: int = 20000, funcs: Optional[dict] = None):
+def interpret(func, args: Dict[str, object], mapping: Optional[Dict[str, object]] = None, max_steps: int = 20000, funcs: Optional[dict] = None,
+              nested_call=lambda *a: None):
     """Finite-domain evaluation of a *pure* repository function with the whitelisted evaluator (no
     repository code runs): Assign (names, tuples, attributes, subscripts) / AugAssign / If / For / While /
     Break / Continue / Try / Return / Raise / Assert / Pass / docstring.  The expressions listed in
@@ -529,6 +591,10 @@ def interpret(func, args: Dict[str, object], mapping: Optional[Dict[str, object]
                     raise _Raised(current[-1] if current else "RuntimeError")
                 e = st.exc.func if isinstance(st.exc, ast.Call) else st.exc
                 raise _Raised(dotted(e) or src(e))
+            elif isinstance(st, (ast.FunctionDef, ast.AsyncFunctionDef)):
+                # a nested function is only passed around as a callback; calling it is modelled by the caller's ``funcs`` (default: opaque result)
+                env[st.name] = f"<function {st.name}>"
+                fs.setdefault(st.name, nested_call)
             else:
                 raise InterpError(f"statement not modelled: {type(st).__name__}")
         return None
